@@ -112,7 +112,7 @@ CHECKS = {
     'C13': dict(
         category='exploration',
         text=('Round trip through the real dump/load functions at every save point (G, E1, E2, O) of Hypothesis-configured pipelines in 4 '
-              'languages: equal text under all four translators, equal results of erasure+overwriting under identical RNG, stable second '
+              'languages (generated and hand-shaped programs): the loaded program translates to the source text stored before the dump, equal text under all four translators, equal results of erasure+overwriting under identical RNG, stable second '
               'dump, equal reverse namespace lookups; plus an other-process leg: save points are read back by a fresh interpreter with a '
               'different PYTHONHASHSEED (the --replay situation) and must translate to the texts of the live object.'),
         design_ref='DESIGN.md §3 C13',
